@@ -1,0 +1,178 @@
+//go:build verif
+
+// Contracts for package psql, read by /verif/gvc (comment-only file; it declares
+// nothing and is compiled only with -tags verif).
+package psql
+
+// ---- C20: client-supplied identifiers are data ----------------------------------------
+// At every call that hands statement text to the database, the text is 'sqlfixed': built
+// only from program constants and the graph's table names (identifier-safe by the
+// representation invariant 'tables' of Graph). Ids, labels and graph names supplied by
+// clients may only travel as bound parameters.
+
+//@ func (*Graph).DelVertex
+//@   property C20
+//@   option prelude=sql
+//@   requires nonnil: g != nil && g.db != nil
+//@   requires tables: identsafe(g.v) && identsafe(g.e)
+//@   callsite DB).Exec requires fixed: sqlfixed(arg1)
+
+//@ func (*Graph).DelEdge
+//@   property C20
+//@   option prelude=sql
+//@   requires nonnil: g != nil && g.db != nil
+//@   requires tables: identsafe(g.v) && identsafe(g.e)
+//@   callsite DB).Exec requires fixed: sqlfixed(arg1)
+
+//@ func (*Graph).GetVertex
+//@   property C20
+//@   option prelude=sql
+//@   requires nonnil: g != nil && g.db != nil
+//@   requires tables: identsafe(g.v) && identsafe(g.e)
+//@   callsite DB).QueryRowx requires fixed: sqlfixed(arg1)
+
+//@ func (*Graph).GetEdge
+//@   property C20
+//@   option prelude=sql
+//@   requires nonnil: g != nil && g.db != nil
+//@   requires tables: identsafe(g.v) && identsafe(g.e)
+//@   callsite DB).QueryRowx requires fixed: sqlfixed(arg1)
+
+//@ func (*Graph).AddVertex
+//@   property C20
+//@   option prelude=sql
+//@   requires nonnil: g != nil && g.db != nil
+//@   requires tables: identsafe(g.v) && identsafe(g.e)
+//@   callsite Tx).Prepare requires fixed: sqlfixed(arg1)
+
+//@ func (*Graph).AddEdge
+//@   property C20
+//@   option prelude=sql
+//@   requires nonnil: g != nil && g.db != nil
+//@   requires tables: identsafe(g.v) && identsafe(g.e)
+//@   callsite Tx).Prepare requires fixed: sqlfixed(arg1)
+
+//@ func (*Graph).VertexLabelScan$1
+//@   property C20
+//@   option prelude=sql
+//@   requires nonnil: g != nil && g.db != nil
+//@   requires tables: identsafe(g.v) && identsafe(g.e)
+//@   callsite DB).QueryxContext requires fixed: sqlfixed(arg2)
+
+//@ func (*GraphDB).getGraphInfo
+//@   property C20
+//@   option prelude=sql
+//@   requires nonnil: db != nil && db.db != nil
+//@   callsite DB).QueryRowx requires fixed: sqlfixed(arg1)
+
+// AddGraph: the graph name has passed gripql.ValidateGraphName, which refuses quotes,
+// backslashes, blanks and punctuation but not control characters, back-quotes or non-ASCII
+// letters; the table names derived from it are embedded as identifiers (KNOWN FINDING
+// callsite fixed:2, the CREATE TABLE statement).
+//@ func (*GraphDB).AddGraph
+//@   property C20
+//@   option prelude=sql
+//@   option load=gripql
+//@   requires nonnil: db != nil && db.db != nil
+//@   callsite DB).Exec requires fixed: sqlfixed(arg1)
+
+//@ func (*GraphDB).createIndex
+//@   property C20
+//@   option prelude=sql
+//@   requires nonnil: db != nil && db.db != nil
+//@   requires names: sqlfixed(table) && sqlfixed(field)
+//@   pure
+//@   callsite DB).Exec requires fixed: sqlfixed(arg1)
+
+// DeleteGraph: the table names come from the graphs table (written by AddGraph); that
+// they are identifier-safe is the store's representation invariant, assumed here.
+//@ func (*GraphDB).DeleteGraph
+//@   property C20
+//@   option prelude=sql
+//@   requires nonnil: db != nil && db.db != nil
+//@   callsite DB).Exec requires fixed: sqlfixed(arg1)
+
+//@ func (*Graph).GetVertexList$1
+//@   property C20
+//@   option prelude=sql
+//@   requires nonnil: g != nil && g.db != nil
+//@   requires tables: identsafe(g.v) && identsafe(g.e)
+//@   callsite DB).QueryxContext requires fixed: sqlfixed(arg2)
+
+//@ func (*Graph).GetEdgeList$1
+//@   property C20
+//@   option prelude=sql
+//@   requires nonnil: g != nil && g.db != nil
+//@   requires tables: identsafe(g.v) && identsafe(g.e)
+//@   callsite DB).QueryxContext requires fixed: sqlfixed(arg2)
+
+//@ func (*Graph).ListVertexLabels
+//@   property C20
+//@   option prelude=sql
+//@   requires nonnil: g != nil && g.db != nil
+//@   requires tables: identsafe(g.v) && identsafe(g.e)
+//@   callsite DB).Queryx requires fixed: sqlfixed(arg1)
+
+//@ func (*Graph).ListEdgeLabels
+//@   property C20
+//@   option prelude=sql
+//@   requires nonnil: g != nil && g.db != nil
+//@   requires tables: identsafe(g.v) && identsafe(g.e)
+//@   callsite DB).Queryx requires fixed: sqlfixed(arg1)
+
+// Graph: the handle's table names are the stored ones.
+//@ func (*GraphDB).Graph
+//@   property C20
+//@   option prelude=sql
+//@   option load=gdbi
+//@   requires nonnil: db != nil && db.db != nil
+//@   ensures tables: result.1 == nil ==> dyn(result.0, "*Graph") && identsafe(ptr(result.0, "*Graph").v) && identsafe(ptr(result.0, "*Graph").e)
+
+// What callers may assume of getGraphInfo (ASSUMED: the row it reads back is the one
+// AddGraph stored, whose table names are identifier-safe - the representation invariant
+// of the psql store; the function's own statement text is checked above).
+//@ extern (*github.com/bmeg/grip/psql.GraphDB).getGraphInfo@psql
+//@   params db graph
+//@   option prelude=sql
+//@   modifies H.psql.graphInfo. alloc
+//@   ensures row: result.1 == nil ==> result.0 != nil && identsafe(result.0.VertexTable) && identsafe(result.0.EdgeTable)
+
+//@ func (*Graph).GetVertexChannel$1
+//@   property C20
+//@   option prelude=sql
+//@   option load=gdbi
+//@   requires nonnil: g != nil && g.db != nil
+//@   requires tables: identsafe(g.v) && identsafe(g.e)
+//@   callsite DB).Queryx requires fixed: sqlfixed(arg1)
+
+//@ func (*Graph).GetOutChannel$1
+//@   property C20
+//@   option prelude=sql
+//@   option load=gdbi
+//@   requires nonnil: g != nil && g.db != nil
+//@   requires tables: identsafe(g.v) && identsafe(g.e)
+//@   callsite DB).Queryx requires fixed: sqlfixed(arg1)
+
+//@ func (*Graph).GetInChannel$1
+//@   property C20
+//@   option prelude=sql
+//@   option load=gdbi
+//@   requires nonnil: g != nil && g.db != nil
+//@   requires tables: identsafe(g.v) && identsafe(g.e)
+//@   callsite DB).Queryx requires fixed: sqlfixed(arg1)
+
+//@ func (*Graph).GetOutEdgeChannel$1
+//@   property C20
+//@   option prelude=sql
+//@   option load=gdbi
+//@   requires nonnil: g != nil && g.db != nil
+//@   requires tables: identsafe(g.v) && identsafe(g.e)
+//@   callsite DB).Queryx requires fixed: sqlfixed(arg1)
+
+//@ func (*Graph).GetInEdgeChannel$1
+//@   property C20
+//@   option prelude=sql
+//@   option load=gdbi
+//@   requires nonnil: g != nil && g.db != nil
+//@   requires tables: identsafe(g.v) && identsafe(g.e)
+//@   callsite DB).Queryx requires fixed: sqlfixed(arg1)
